@@ -47,6 +47,7 @@ class TlcResult:
         self.violated = re.findall(
             r"Error: (?:Invariant|Action property) (\w+) is violated", out
         )
+        self.violated += re.findall(r"Error: Temporal property (\w+) was violated", out)
         if "Temporal properties were violated" in out:
             self.violated.append("TEMPORAL")
         if "Deadlock reached" in out:
